@@ -425,20 +425,20 @@ def _all_fn_atoms(p, depth=0):
 
 SELFTEST = [
     dict(id='zoneid-type-renumbered', file='src/ace_time/TimeZoneData.h', find='static const uint8_t kTypeZoneId = 2;',
-         replace='static const uint8_t kTypeZoneId = 4;', rule='R1', construct='kTypeZoneId'),
+         replace='static const uint8_t kTypeZoneId = 4;', rule='R1', construct=':zone'),
     dict(id='processor-kinds-renumbered', file='src/ace_time/ZoneProcessor.h', find='static const uint8_t kTypeBasic = 2;',
          replace='static const uint8_t kTypeBasic = 6;', rule='R1'),
     dict(id='restore-offsets-swapped', file='src/ace_time/ZoneManager.h',
          find='              TimeOffset::forMinutes(d.stdOffsetMinutes),\n              TimeOffset::forMinutes(d.dstOffsetMinutes));',
-         replace='              TimeOffset::forMinutes(d.dstOffsetMinutes),\n              TimeOffset::forMinutes(d.stdOffsetMinutes));', rule='R1', construct='kTypeManual'),
+         replace='              TimeOffset::forMinutes(d.dstOffsetMinutes),\n              TimeOffset::forMinutes(d.stdOffsetMinutes));', rule='R1', construct=':manual'),
     dict(id='save-dst-from-std', file='src/ace_time/TimeZone.h', find='          d.dstOffsetMinutes = mDstOffsetMinutes;',
-         replace='          d.dstOffsetMinutes = mStdOffsetMinutes;', rule='R2', construct='kTypeManual'),
+         replace='          d.dstOffsetMinutes = mStdOffsetMinutes;', rule='R2', construct=':manual'),
     dict(id='managed-kind-not-saved', file='src/ace_time/TimeZone.h',
          find='        case TimeZone::kTypeBasicManaged:\n        case TimeZone::kTypeExtendedManaged:\n          d.zoneId = getZoneId();',
          replace='          d.zoneId = getZoneId();', rule='R2'),
     dict(id='zoneid-through-wrong-broker', file='src/ace_time/TimeZone.h',
          find='        case kTypeExtended:\n        case kTypeExtendedManaged:\n          return ExtendedZone((const extended::ZoneInfo*) mZoneInfo).zoneId();',
-         replace='        case kTypeExtended:\n          return ExtendedZone((const extended::ZoneInfo*) mZoneInfo).zoneId();\n        case kTypeExtendedManaged:\n          return 0;', rule='R2', construct='getZoneId'),
+         replace='        case kTypeExtended:\n          return ExtendedZone((const extended::ZoneInfo*) mZoneInfo).zoneId();\n        case kTypeExtendedManaged:\n          return 0;', rule='R2', construct=':zone'),
     dict(id='equality-ignores-dst', file='src/ace_time/TimeZone.h',
          find='      return a.mStdOffsetMinutes == b.mStdOffsetMinutes\n          && a.mDstOffsetMinutes == b.mDstOffsetMinutes;',
          replace='      return a.mStdOffsetMinutes == b.mStdOffsetMinutes;', rule='R3'),
